@@ -6,22 +6,25 @@ import (
 	vrt "github.com/influxdata/kapacitor/zz_vrt"
 )
 
-type verifFmtCtx struct{ prefix, suffix string }
+type verifFmtCtx struct {
+	prefix, suffix string
+	noFloat        bool // exclude '.' from the symbolic bytes (number contexts)
+}
 
 // Literal contexts: the symbolic bytes form (part of) a literal or token sequence.
 var verifFmtCtxs = []verifFmtCtx{
-	{"var x = '", "'"},                       // single-quoted string
-	{"var x = '''", "'''"},                   // triple-quoted string
-	{"var x = lambda: \"", "\" > 1"},         // reference
-	{"var x = a|b('", "')"},                  // string argument
-	{"var x = ", ""},                         // any primary: number, duration, bool, ident, ...
-	{"var x = 1", ""},                        // number / duration continuation
-	{"var x = lambda: \"a\" ", " \"b\""},     // operator between references
-	{"var x = lambda: 1 ", " 2.0"},           // operator between numbers
-	{"var x = a", "\n"},                      // chain / property continuation
-	{"// ", "\nvar x = 1"},                   // comment text
-	{"var x = [", "]"},                       // list
-	{"var x = lambda: f(", ")"},              // lambda function argument
+	{"var x = '", "'", false},                   // single-quoted string
+	{"var x = '''", "'''", false},               // triple-quoted string
+	{"var x = lambda: \"", "\" > 1", false},     // reference
+	{"var x = a|b('", "')", false},              // string argument
+	{"var x = ", "", true},                      // any primary: number, duration, bool, ident, ...
+	{"var x = 1", "", true},                     // number / duration continuation
+	{"var x = lambda: \"a\" ", " \"b\"", false}, // operator between references
+	{"var x = lambda: 1 ", " 2.0", true},        // operator between numbers
+	{"var x = a", "\n", false},                  // chain / property continuation
+	{"// ", "\nvar x = 1", false},               // comment text
+	{"var x = [", "]", true},                    // list
+	{"var x = lambda: f(", ")", true},           // lambda function argument
 }
 
 // verifRoundTrip asserts the C13 obligations for one script text that parses.
@@ -57,7 +60,15 @@ func verifRoundTrip(v *vrt.T, text string) {
 func VerifC13Literal(v *vrt.T) {
 	c := verifFmtCtxs[v.Choose("ctx", len(verifFmtCtxs))]
 	n := v.Choose("n", v.Bound("bytes", 2)+1)
-	verifRoundTrip(v, c.prefix+v.String("s", n)+c.suffix)
+	s := v.String("s", n)
+	if c.noFloat {
+		// float literals with symbolic digits would need strconv's shortest-float formatting
+		// of a symbolic value (Ryu: 128-bit multiplications) — outside the claim
+		for i := 0; i < len(s); i++ {
+			v.Assume(s[i] != '.')
+		}
+	}
+	verifRoundTrip(v, c.prefix+s+c.suffix)
 }
 
 // VerifC13Precedence: two binary operators given as arbitrary bytes (3 each, spaces allowed),
